@@ -58,6 +58,8 @@ pub enum VerifEvent
     CommandApply{ kind: VerifCommandKind, target: Entity, source: Option<Entity>, data_entity: Option<Entity> },
     /// A polled reaction (component removal or entity despawn) was detected and its command queued.
     ReactionScheduled{ kind: VerifCommandKind, target: Entity, source: Entity },
+    /// `garbage_collect_entities` is about to drain the auto-despawn channel.
+    GarbageCollect,
     /// `syscommand_runner` was entered.
     RunnerEnter{ target: Entity, counter: usize },
     /// `syscommand_runner` decided what to do with the command.
